@@ -126,6 +126,14 @@ type c02Runner struct {
 	addr uint16 // operand address for memory operands
 	pc   uint16
 	code []uint8
+	live *liveSlot
+	prog c02Progress
+}
+
+// c02Progress is what the liveness monitor reports when a Step of this runner does not return.
+type c02Progress struct {
+	Enc     string `json:"encoding"`
+	A, V, F uint8
 }
 
 func (r *c02Runner) operandLoc() refz80.Loc {
@@ -190,7 +198,13 @@ func (r *c02Runner) one(a, v, f uint8) []string {
 	}
 	toCPU(&s, &r.cpu)
 	r.mem.ClearLog()
-	panicked := c02Step(&r.cpu)
+	if r.live == nil {
+		r.live = newLiveSlot()
+	}
+	r.prog = c02Progress{r.e.Name, a, v, f}
+	r.live.enter(&r.prog)
+	panicked := c02StepRaw(&r.cpu)
+	r.live.leave()
 	if panicked != nil {
 		return []string{fmt.Sprintf("Step panicked: %v", panicked)}
 	}
@@ -239,6 +253,13 @@ func (r *c02Runner) one(a, v, f uint8) []string {
 }
 
 func c02Step(cpu *z80.CPU) (p interface{}) {
+	defer func() { p = recover() }()
+	liveStep(cpu)
+	return nil
+}
+
+// c02StepRaw: for callers that publish their own liveness slot.
+func c02StepRaw(cpu *z80.CPU) (p interface{}) {
 	defer func() { p = recover() }()
 	cpu.Step()
 	return nil
